@@ -177,6 +177,7 @@ def run_pyvc_check(prop, tier, seed, ptasks, assumptions, checker_cmd, extra_cov
         "backends": backend_counts(outcomes),
         "solver_seconds": round(sum(o.get("solver_seconds", 0.0) for o in outcomes), 3),
         "paths_explored": sum(o.get("paths", 0) for o in outcomes),
+        "side_conditions_discharged_by_interval_analysis": sum((o.get("meta") or {}).get("side_conditions_discharged_by_interval_analysis", 0) for o in outcomes),
         "tasks": [{"name": o["name"], "status": o["status"], "paths": o["paths"], "returns": o["returns"], "vcs": len(o["vcs"]),
                    "seconds": o["seconds"], "bounded": o.get("bounded", False)} for o in sorted(outcomes, key=lambda x: x["name"])],
         "samples": samples,
